@@ -65,6 +65,27 @@ def capsule_table(ctx):
             continue
         c, st = capflow.extract(od)
         rows.append((name, c, st))
+    # Fortran side: a capsule a wrapper fills for the caller is a dummy with intent(OUT) — the compiler then finalises whatever the
+    # caller's variable still held before the call (the capsule type has a FINAL procedure), so re-using a capsule variable for a
+    # second owner(caller) result releases the first one.  (The capsule's own final / delete procedures take it INOUT.)
+    import glob as _glob
+    for fd in [os.path.join(ctx.bdir, "cap")] + sorted(_glob.glob(os.path.join(base, "*"))):
+        for ff in sorted(_glob.glob(os.path.join(fd, "*.f")) + _glob.glob(os.path.join(fd, "*.f90"))):
+            proc = ""
+            for ln, line in enumerate(open(ff, errors="replace").read().split("\n")):
+                t = line.strip()
+                mp = re.match(r"^(?:pure\s+|elemental\s+)*(?:function|subroutine)\s+(\w+)", t, flags=re.I)
+                if mp:
+                    proc = mp.group(1)
+                mc = re.match(r"^type\((\w*SHROUD_capsule)\)\s*,\s*intent\((\w+)\)\s*::\s*(\w+)", t, flags=re.I)
+                if mc and not re.search(r"capsule_(final|delete)$", proc, flags=re.I):
+                    ctx.count(1, ("capsule-dummy", os.path.basename(fd), os.path.basename(ff), proc))
+                    ctx.hist("fortran-capsule-dummy:" + mc.group(2).upper())
+                    if mc.group(2).upper() != "OUT":
+                        ctx.violation("failing-input", {"what": "a Fortran wrapper receives the capsule for a caller-owned result as intent(%s): the memory the caller's "
+                                                                "capsule variable still holds is not finalised before it is overwritten (leak when a capsule "
+                                                                "variable is used for two results)" % mc.group(2).upper(),
+                                                        "input": {"library": os.path.basename(fd), "file": os.path.basename(ff), "procedure": proc, "line": ln + 1, "text": t}})
     gdir = os.path.join(ctx.bdir, "gen_capsule")
     os.makedirs(gdir, exist_ok=True)
     nsites = capflow.emit_coq(rows, os.path.join(gdir, "GenCapsule.v"))
